@@ -76,5 +76,34 @@ mut("c10-set-from-sorts-inplace", ["C10", "C14"], MK, "        copy = marks[:]\n
 mut("c10-mapping-copy-shares", ["C10", "C08"], MAP, "            self.maps[:],\n            (self.mirror[:] if self.mirror else None),", "            self.maps,\n            (self.mirror[:] if self.mirror else None),", "a copied Mapping shares its maps list")
 mut("c10-stepmap-invert-shares-then-sorts", ["C10"], MAP, "        return StepMap(self.ranges, not self.inverted)", "        self.inverted = not self.inverted\n        return self", "invert flips the receiver")
 
+ST = "prosemirror/transform/structure.py"
+TD = "prosemirror/model/to_dom.py"
+FDM = "prosemirror/model/from_dom.py"
+RPL = "prosemirror/transform/replace.py"
+mut("c04-replace-invert-content-size", ["C04"], RS, "            self.from_ + self.slice.size,\n            doc.slice(self.from_, self.to),", "            self.from_ + self.slice.content.size,\n            doc.slice(self.from_, self.to),", "inverse of an open-slice replace covers too much")
+mut("c04-around-invert-insert", ["C04"], RS, "            self.gap_from - self.from_,\n            self.structure,\n        )", "            self.gap_from - self.from_ if self.gap_to > self.gap_from + 1 else self.insert,\n            self.structure,\n        )", "inverse insert offset wrong for one-token gaps")
+mut("c04-remove-node-mark-invert", ["C04"], MS, "        if not node or not self.mark.is_in_set(node.marks):\n            return self\n        return AddNodeMarkStep(self.pos, self.mark)", "        if not node:\n            return self\n        return AddNodeMarkStep(self.pos, self.mark)", "undoing a no-op removal adds the mark")
+mut("c04-docattr-invert", ["C04"], DAS, "        return DocAttrStep(self.attr, doc.attrs[self.attr])", "        return DocAttrStep(self.attr, doc.attrs.get(self.attr) or self.value)", "falsy old values are not restored")
+mut("c05-node-attrs-shallow", ["C05"], N, "                \"attrs\": copy.deepcopy(self.attrs),", "                \"attrs\": dict(self.attrs),", "nested attribute containers alias the live node")
+mut("c05-around-structure-dropped", ["C05"], RS, "            json_data[\"insert\"],\n            bool(json_data.get(\"structure\")),", "            json_data[\"insert\"],\n            False,", "structure flag lost when decoding replace-around steps")
+mut("c05-slice-open-end-json", ["C05", "C04"], R, "        if self.open_end > 0:\n            json = {", "        if self.open_end > 1:\n            json = {", "openEnd 1 not serialised")
+mut("c11-fits-trivially-start", ["C11"], RPL, "    if not slice.open_start and not slice.open_end and from__.start() == to_.start():", "    if not slice.open_start and not slice.open_end and from__.depth == to_.depth:", "trivial fit assumed for same-depth ends in different parents")
+mut("c12-insert-point-after", ["C12"], ST, "            if pos_.node(d).can_replace_with(index, index, node_type):\n                return pos_.after(d + 1)", "            if pos_.node(d).can_replace_with(index, index, node_type):\n                return pos_.after(d + 1) + (1 if d == 0 and pos_.depth > 2 else 0)", "insert point one too far for deep positions")
+mut("c12-can-split-rest", ["C12"], ST, "        ) or not after.type.valid_content(rest):\n            return False", "        ):\n            return False", "can_split does not validate the split-off remainder at outer levels")
+mut("c13-remove-mark-type-first-only", ["C13"], T, "                    to_remove.append(found_mark)\n                    set_ = found_mark.remove_from_set(set_)", "                    to_remove.append(found_mark)\n                    break", "removing a mark type removes only one mark of the type per node")
+mut("c13-set-node-markup-marks", ["C13"], T, "        new_node = type.create(attrs, None, marks or node.marks)", "        new_node = type.create(attrs, None, marks)", "set_node_markup drops the node's marks when none are given")
+mut("c13-add-mark-end", ["C13"], T, "                end = min(pos + node.node_size, to)\n                new_set = mark.add_to_set(marks)", "                end = pos + node.node_size\n                new_set = mark.add_to_set(marks)", "mark added to the end of the last text node instead of the range end")
+mut("c16-mark-merge-disjoint", ["C16"], MS, "            isinstance(other, AddMarkStep)\n            and other.mark.eq(self.mark)\n            and self.from_ <= other.to\n            and self.to >= other.from_", "            isinstance(other, AddMarkStep)\n            and other.mark.eq(self.mark)\n            and self.from_ <= other.to", "disjoint add-mark steps merged into their hull")
+mut("c16-merge-before-order", ["C16"], RS, "                    other.slice.content.append(self.slice.content),\n                    other.slice.open_start,", "                    self.slice.content.append(other.slice.content),\n                    other.slice.open_start,", "prepending merge concatenates in the wrong order")
+mut("c17-replace-map-assoc", ["C17"], RS, "        from_ = mapping.map_result(self.from_, 1)\n        to = mapping.map_result(self.to, -1)\n        if from_.deleted and to.deleted:\n            return None\n        return ReplaceStep(", "        from_ = mapping.map_result(self.from_, 1)\n        to = mapping.map_result(self.to, 1)\n        if from_.deleted and to.deleted:\n            return None\n        return ReplaceStep(", "end of a replace step sticks to content inserted after it - only visible for touching ranges, outside C17's quantifier (control)", expect="silent")
+mut("c17-attr-map-deleted", ["C17"], AS, "        return None if pos.deleted_after else AttrStep(pos.pos, self.attr, self.value)", "        return None if pos.deleted_after or pos.deleted_before else AttrStep(pos.pos, self.attr, self.value)", "attr step dropped when content right before its node is deleted - only for adjacent ranges, outside C17's quantifier (control)", expect="silent")
+mut("c18-lift-target-isolating", ["C18"], ST, "            depth == 0\n            or node.type.spec.get(\"isolating\")\n            or not can_cut(node, index, end_index)", "            depth == 0\n            or not can_cut(node, index, end_index)", "lift target may cross an isolating node")
+mut("c18-can-split-isolating-outer", ["C18"], ST, "        if node.type.spec.get(\"isolating\"):\n            return False\n        rest = node.content.cut_by_index(index, node.child_count)", "        rest = node.content.cut_by_index(index, node.child_count)", "deep split may split an isolating ancestor")
+mut("c19-text-not-escaped", ["C19"], TD, "            return html.escape(structure), None", "            return structure, None", "text nodes serialised without escaping")
+mut("c19-trailing-space-kept", ["C19"], FDM, "                    if len(last.text) == len(m[0]):\n                        self.content.pop()", "                    if len(last.text) == len(m[0]) and len(self.content) > 1:\n                        self.content.pop()", "whitespace-only last text node kept when it is the only child - a parsing detail no clause of C19 speaks about (control)", expect="silent")
+mut("c19-normalize-list-prev", ["C19"], FDM, "        elif name == \"li\":\n            prev_item = child\n        elif name:\n            prev_item = None", "        elif name == \"li\":\n            prev_item = child", "non-li children do not reset the previous item - result still valid, no clause of C19 affected (control)", expect="silent")
+mut("c09-nodes-between-ge", ["C09"], F, "                end > from_\n                and f(child, node_start + pos, parent, i) is not False", "                end >= from_\n                and f(child, node_start + pos, parent, i) is not False", "node ending exactly at `from` is visited")
+mut("c09-node-at-text", ["C09"], N, "            if offset == pos or node.is_text:\n                return node\n            pos -= offset + 1", "            if offset == pos:\n                return node\n            if node.is_text:\n                return None\n            pos -= offset + 1", "node_at inside a text node returns nothing")
+
 json.dump(M, open(os.path.join(os.path.dirname(os.path.abspath(__file__)), "mutations.json"), "w"), indent=1)
 print(len(M), "mutations")
